@@ -211,3 +211,41 @@ package keeper
 //@ loop 0 "for ; iter.Valid(); iter.Next()"
 //@ loop 0 invariant [nothing_changed_while_searching] nothing_written()
 //@ loop 0 invariant [no_match_among_visited] forall j in [0, itpos(iter)) :: !(k1(itkey(iter, j)) == bytes(report.QueryId) && oracle.Aggregates[itkey(iter, j)].Reporters[oracle.Aggregates[itkey(iter, j)].AggregateReportIndex].Reporter == report.Reporter)
+
+// ---- admission of reports into rounds (C07) ----
+// A round is a Query entry keyed (queryId, metaId); a report is keyed (queryId, reporter, metaId). keccak(d) is
+// the query id of query data d. rep(q, r, i) is the stored report of reporter r in round i of query q.
+
+//@ define rep(q, r, i) = oracle.Reports[triple(q, r, i)]
+
+//@ func (k Keeper).SetValue(ctx, reporter, query, val, queryData, power, incycle) (err)
+//@ modifies oracle.Query, oracle.Reports
+//@ ensures [report_stored_under_query_reporter_and_round] err == nil ==> has(oracle.Reports, triple(keccak(queryData), bytes(reporter), query.Id)) && rep(keccak(queryData), bytes(reporter), query.Id).Power == power && rep(keccak(queryData), bytes(reporter), query.Id).Value == val && rep(keccak(queryData), bytes(reporter), query.Id).Cyclelist == incycle && rep(keccak(queryData), bytes(reporter), query.Id).BlockNumber == blockheight(ctx) && rep(keccak(queryData), bytes(reporter), query.Id).Timestamp == blocktime(ctx)
+//@ ensures [stored_value_is_parsable_by_aggregation] err == nil ==> ishex(strip0x(rep(keccak(queryData), bytes(reporter), query.Id).Value))
+//@ ensures [round_marked_as_having_reports] err == nil ==> has(oracle.Query, pair(keccak(queryData), query.Id)) && oracle.Query[pair(keccak(queryData), query.Id)].HasRevealedReports && oracle.Query[pair(keccak(queryData), query.Id)].Id == query.Id && oracle.Query[pair(keccak(queryData), query.Id)].Expiration == query.Expiration && oracle.Query[pair(keccak(queryData), query.Id)].Amount == query.Amount && oracle.Query[pair(keccak(queryData), query.Id)].CycleList == query.CycleList
+//@ ensures [only_this_report_written] forall q bytes :: forall r bytes :: forall i int :: q != keccak(queryData) || r != bytes(reporter) || i != query.Id ==> (has(oracle.Reports, triple(q, r, i)) <==> old(has(oracle.Reports, triple(q, r, i)))) && rep(q, r, i) == old(rep(q, r, i))
+//@ ensures [only_this_round_written] forall q bytes :: forall i int :: q != keccak(queryData) || i != query.Id ==> (has(oracle.Query, pair(q, i)) <==> old(has(oracle.Query, pair(q, i)))) && oracle.Query[pair(q, i)] == old(oracle.Query[pair(q, i)])
+//@ ensures [rejected_value_changes_nothing] err != nil ==> nothing_written()
+
+//@ func (k Keeper).DirectReveal(ctx, query, qDataBytes, value, reporterAddr, votingPower, bridgeDeposit) (err)
+//@ requires [round_counter_below_2_64] oracle.QuerySequencer < 18446744073709551615
+//@ requires [window_fits] blockheight(ctx) + query.RegistrySpecBlockWindow < 18446744073709551616
+//@ modifies oracle.Query, oracle.Reports, oracle.QuerySequencer
+//@ ensures [needs_a_tip_or_the_cycle_list] err == nil && !bridgeDeposit ==> query.Amount != 0 || query.CycleList
+//@ ensures [needs_an_open_window] err == nil && !bridgeDeposit ==> query.Expiration >= blockheight(ctx)
+//@ ensures [accepted_report_is_stored_in_the_current_round] err == nil && !bridgeDeposit ==> has(oracle.Reports, triple(keccak(qDataBytes), bytes(reporterAddr), query.Id)) && rep(keccak(qDataBytes), bytes(reporterAddr), query.Id).Power == votingPower && rep(keccak(qDataBytes), bytes(reporterAddr), query.Id).Cyclelist == query.CycleList
+//@ ensures [rejected_report_changes_nothing] err != nil && !bridgeDeposit ==> nothing_written()
+
+//@ func (k Keeper).HandleBridgeDepositDirectReveal(ctx, query, querydata, reporterAcc, value, voterPower) (err)
+//@ requires [round_counter_below_2_64] oracle.QuerySequencer < 18446744073709551615
+//@ requires [window_fits] blockheight(ctx) + query.RegistrySpecBlockWindow < 18446744073709551616
+//@ modifies oracle.Query, oracle.Reports, oracle.QuerySequencer
+//@ ensures [untipped_closed_round_is_replaced_by_a_fresh_one] err == nil && query.Amount == 0 && query.Expiration <= blockheight(ctx) ==> oracle.QuerySequencer == old(oracle.QuerySequencer) + 1 && has(oracle.Reports, triple(keccak(querydata), bytes(reporterAcc), old(oracle.QuerySequencer))) && oracle.Query[pair(keccak(querydata), old(oracle.QuerySequencer))].Expiration == blockheight(ctx) + query.RegistrySpecBlockWindow
+//@ ensures [open_round_is_kept] err == nil && query.Expiration > blockheight(ctx) ==> oracle.QuerySequencer == old(oracle.QuerySequencer) && has(oracle.Reports, triple(keccak(querydata), bytes(reporterAcc), query.Id)) && oracle.Query[pair(keccak(querydata), query.Id)].Expiration == query.Expiration
+//@ ensures [tipped_closed_round_is_reopened] err == nil && query.Amount > 0 && query.Expiration <= blockheight(ctx) ==> oracle.QuerySequencer == old(oracle.QuerySequencer) && has(oracle.Reports, triple(keccak(querydata), bytes(reporterAcc), query.Id)) && oracle.Query[pair(keccak(querydata), query.Id)].Expiration == blockheight(ctx) + query.RegistrySpecBlockWindow
+//@ ensures [deposit_reports_count_for_the_cycle_rewards] err == nil ==> forall i int :: has(oracle.Reports, triple(keccak(querydata), bytes(reporterAcc), i)) && !old(has(oracle.Reports, triple(keccak(querydata), bytes(reporterAcc), i))) ==> rep(keccak(querydata), bytes(reporterAcc), i).Cyclelist
+
+//@ func (k Keeper).TokenBridgeDepositQuery(ctx, queryData) (query, err)
+//@ requires [round_counter_below_2_64] oracle.QuerySequencer < 18446744073709551615
+//@ modifies oracle.QuerySequencer
+//@ ensures [fresh_round_with_2000_block_window] err == nil ==> query.Id == old(oracle.QuerySequencer) && oracle.QuerySequencer == old(oracle.QuerySequencer) + 1 && query.Expiration == blockheight(ctx) + 2000 && query.RegistrySpecBlockWindow == 2000 && query.Amount == 0 && query.CycleList && !query.HasRevealedReports
